@@ -33,6 +33,36 @@ P = {
          'ints/mask/int/errors specs, applyMut list semantics, sigEq_iff. Tie: SignatureArray/SignatureList/HDF5Signatures against GambitV.getItemList on '
          'every slice over a small range, all short index lists and masks, NumPy integer dtypes, ill-typed indices, mutation histories, equality.',
          '§5 C20', 'CPython slice.indices / numpy.arange / flatnonzero are modelled (validated by the c20.sliceidx stream); h5py trusted.'),
+ 'C02': (True, 'Lean 4 theorems (merge loop = |A∪B|; bit-exact binary32 model; correctly-rounded quotient) + correspondence against the compiled kernel',
+         'Theorems: unionCount_eq_card, symmDiff_card, ofNat_exact, div_ofNat, roundRat_scale and the headline jaccard_correctly_rounded (for |A∪B| < 2^24 the '
+         'returned bits are the exact ratio rounded once), jaccard_empty, index_eq_one_sub, castDtype_spec. Tie: jaccarddist/jaccard on exhaustive subset pairs, '
+         'structured/random pairs x 6x6 dtypes x both orders, size-only large pairs, F32 model vs NumPy float32. PARTIAL beyond |A∪B| >= 2^24: open finding C02-F1.',
+         '§5 C02, §4.5', 'x86-64 SSE binary32 arithmetic assumed for the compiled kernel; guard u < 2^24 in the theorem, the excluded range is the known finding.'),
+ 'C15': (True, 'Lean 4 theorems (metric laws over Finset ℕ in ℚ, lifted to binary32 through the rounding-error bound) + correspondence',
+         'Theorems: dist_mem_unit, dist_eq_zero_iff, dist_eq_one_iff, dist_symm, dist_triangle (exact), jaccardBits_symm (bit-for-bit), bits_zero_iff, bits_one_iff, '
+         'triangle_f32 (slack 2^-22), add_common_strict_f32 (u+1 < 2^23), dist_add_common_lt (exact). Tie: all 32^3 triples over a 5-element universe, random triples in '
+         'mixed widths, common-element additions, evaluated by Lean predicates on the real bit patterns. PARTIAL: strictness beyond u+1 >= 2^23 is open finding C15-F1.',
+         '§5 C15, §4.5', 'same kernel and binary32 assumptions as C02.'),
+ 'C03': (True, 'Lean 4 theorems (decision logic = statement wording; monotonicity) + correspondence with a relational Lean oracle',
+         'Theorems: matchingTaxon_eq_spec, next_eq_spec (+ the three statement cases), classifyDefault_ok (the model meets the relation the driver checks), argminFirst_spec, '
+         'coarsen_mono (a larger distance keeps or coarsens the prediction), threshold_equality_matches. Tie: classify / get_result_item / matching_taxon / next_taxon on all '
+         'forests <= 3/4 nodes x threshold patterns and random forests, judged by GambitV.defaultOk on the real result.',
+         '§5 C03, §4.4', 'np.argmin / float comparisons modelled exactly (values scaled to naturals); taxonomies are forests.'),
+ 'C09': (True, 'Lean 4 theorems (the specification determines the list uniquely) + correspondence',
+         'Theorems: closestOk_unique (any list satisfying the (distance, reference order) prefix specification equals closestList), closestList_ok, stableArgsort_perm/sorted, '
+         'closest_head_eq_argmin. Tie: closest_genomes of get_result_item on tie-heavy rows judged by GambitV.closestOk, head = closest_match, exact distances and per-entry taxa; '
+         'thorough: identical lists under NPY_DISABLE_CPU_FEATURES settings.',
+         '§5 C09, §4.1', 'NumPy stable argsort trusted only as far as every produced list is checked against the Lean spec.'),
+ 'C10': (True, 'Lean 4 theorems (fold invariant; refinement to an order-free spec; permutation invariance) + exhaustive/random correspondence',
+         'Theorems: consensus_eq_spec (incremental trunk merge = LCA of the most specific taxa), consensus_perm / consensus_set (order and duplicates irrelevant), '
+         'consensus_comparable, fail_iff, chain_case, warning_iff, others_eq_spec, classifyStrict_ok; consensusOld_order_dependent records the repaired defect. '
+         'Tie: consensus_taxon on all forests <= 4/5 nodes x subsets x orders, classify(strict=True) with permuted reference orders, judged by consensusSpec / strictOk.',
+         '§5 C10, §4.3', 'taxonomies are forests; dict insertion order.'),
+ 'C04': (True, 'Lean 4 theorems (pairing by key; completeness; order/padding irrelevance) + correspondence on scratch databases',
+         'Theorems: pairing, positions_increasing, uses_exactly_matching, genome_matched_iff, order_padding_irrelevant, load_ok_iff / load_* error cases, locate_ok_iff. '
+         'Tie: ReferenceDatabase.load / load_from_dir on scratch SQLite genome sets + signature files with permuted / padded / incomplete IDs for the four ID attributes; '
+         'locate_files on generated directory listings; query() distance rows vs the real pairwise distance to the signature stored under each genome\'s ID.',
+         '§5 C04', 'SQLAlchemy/SQLite/h5py return stored data; unique IDs (schema constraints).'),
 }
 
 REASON_PENDING = 'check not built yet in this round (machinery under construction; see DESIGN.md §8 build order)'
